@@ -158,10 +158,10 @@ def run(ctx):
                           obs={k: v for k, v in o.items() if k not in ("pairs", "listings")})
     # ---- growth: sequential meaning of the epoch set + the --watch handler (EpochOps.tla)
     if not ctx.replay or ctx.replay.get("sig", {}).get("op") == "epochops":
-        run_epochops(ctx, q)
+        ctx.growth(run_epochops, q)
     # ---- the --watch dispatch loop (Watcher.tla) on the real onFileChanged
     if not ctx.replay or ctx.replay.get("sig", {}).get("op") == "watch":
-        run_watcher(ctx, q)
+        ctx.growth(run_watcher, q)
     if model_viol:
         ctx.extra["model_invariants_violated"] = model_viol
     if unbalanced:
